@@ -114,12 +114,46 @@ def tables(rm, ctx=None):
         written = sum(1 for x in ast.walk(fx) if (isinstance(x, ast.Attribute) and x.attr == "register") or (isinstance(x, ast.Name) and x.id == "register"))
         direct = [x for x in ast.walk(fx) if isinstance(x, ast.Attribute) and x.attr == "_symbols" and isinstance(x.ctx, ast.Load)]
         read = sum(1 for r in rm.registry(c) if r["cls"] == dc and r["op"] == "register")
+        # ... and so does one that hands the work to a helper which could not be put back in place (a method reached through self, a
+        # function of the module) and which registers / runs the base constructor itself
+        hidden = _hidden_registrations(rm.pkg, dc, fx)
+        if hidden and not (written > read or direct):
+            regs.opaque.add(c)
+            if ctx is not None:
+                ctx.unrec("R1", f"{c}.__init__:registrations", (rm.pkg.cls(c).file, fn.lineno), f"the constructor calls {hidden[0]}(), which registers symbols / runs the base constructor "
+                          "and is not read in place: the names this class registers are not all known")
         if written > read or direct:
             regs.opaque.add(c)
             if ctx is not None:
                 ctx.unrec("R1", f"{c}.__init__:registrations", (rm.pkg.cls(c).file, fn.lineno), f"the constructor mentions `register` {written} times" + (" and the symbol table itself" if direct else "") +
                           f" but only {read} registrations could be read off it: some names are registered in a way that is not understood")
     return regs
+
+
+def _hidden_registrations(pkg, dc, fx) -> list:
+    """names of the helpers the (expanded) constructor `fx` of class dc still CALLS -- methods through self / cls / the class name
+    (MRO of dc), functions of the module by bare name, transitively -- whose own text registers / unregisters, touches the symbol
+    table or uses super()"""
+    file = pkg.cls(dc).file
+    seen, todo, out = set(), [fx], []
+    marks = lambda f: any((isinstance(n, ast.Attribute) and n.attr in ("register", "unregister", "_symbols")) or (isinstance(n, ast.Name) and n.id in ("super", "register", "unregister"))
+                          for n in ast.walk(f))
+    while todo and len(seen) < 80:
+        f = todo.pop()
+        for c in ast.walk(f):
+            if not isinstance(c, ast.Call):
+                continue
+            callee = name = None
+            if isinstance(c.func, ast.Attribute) and isinstance(c.func.value, ast.Name) and c.func.value.id in ("self", "cls", dc) and c.func.attr not in ("register", "unregister"):
+                callee, name = pkg.resolve(dc, c.func.attr)[1], c.func.attr
+            elif isinstance(c.func, ast.Name):
+                callee, name = pkg.functions.get((file, c.func.id)), c.func.id
+            if callee is not None and id(callee) not in seen:
+                seen.add(id(callee))
+                if marks(callee):
+                    out.append(name)
+                todo.append(callee)
+    return out
 
 
 def declared_everywhere(ctx):
